@@ -69,4 +69,23 @@ def bounded(check):
                        replay_cmd="/venv/bin/python %s %s %s" % (os.path.join(here, "bounded", "dr_small_scope.py"), check.repo.root, " ".join(args))),
                   open(path, "w"), indent=1)
         out["replay"] = path
-    return [out]
+    outs = [out]
+    # 'at most once' also for the incremental / pooled drivers (with one component disabled): the scheduling stand-in counts body invocations
+    n = "3" if check.tier == "quick" else "4"
+    p = subprocess.run(["/venv/bin/python", os.path.join(here, "bounded", "dr_scheduling.py"), check.repo.root, n],
+                       stdout=subprocess.PIPE, stderr=subprocess.PIPE, universal_newlines=True, timeout=6000)
+    line = (p.stdout.strip().splitlines() or ["{}"])[-1]
+    try:
+        info = json.loads(line)
+    except ValueError:
+        info = {"error": (p.stderr or p.stdout)[-400:]}
+    out2 = dict(name="every body runs at most once, and equally often, under single pass / incremental / shared broker / pooled evaluation", level="bounded",
+                bound="every graph of <= %s plain components x outcomes (value, crash) x {none, one component disabled}" % n,
+                result=info, violation=(p.returncode == 1), error=(p.returncode not in (0, 1)))
+    if p.returncode == 1:
+        path = os.path.join(here, "replays", "%s-bounded-sched.json" % check.pid)
+        json.dump(dict(obligation="bounded:dr-scheduling", witness=info,
+                       replay_cmd="/venv/bin/python %s %s %s" % (os.path.join(here, "bounded", "dr_scheduling.py"), check.repo.root, n)), open(path, "w"), indent=1)
+        out2["replay"] = path
+    outs.append(out2)
+    return outs
